@@ -148,6 +148,16 @@ OPEN_STEPS = [
     ("bail", r"anyhow::bail!|\bbail!"),
 ]
 
+# `Nomt::begin_session` (unit Q45): the access read guard must be taken BEFORE anything that opens a beatree read
+# transaction (the rollback delta builder, the merkle updater) — a writer that got the lock waits in `block_until_zero`
+# for every read transaction, a `begin_session` queued behind that writer must therefore not hold one yet.
+SESSION_STEPS = [
+    ("guard_read", r"RwLock::read_arc\s*\(\s*&\s*self\s*\.\s*access_lock"),
+    ("delta_builder", r"\.\s*delta_builder\s*\("),
+    ("root_read", r"self\s*\.\s*root\s*\(\s*\)"),
+    ("updater_begin", r"merkle_update_pool\s*\.\s*begin\b"),
+]
+
 # (lean name, file, fn name, enclosing `impl X` (or None), steps, allow_loops)
 TARGETS = [
     ("finished_commit", "nomt/src/lib.rs", "commit", "FinishedSession", LIB_STEPS, False),
@@ -155,6 +165,7 @@ TARGETS = [
     ("overlay_commit", "nomt/src/lib.rs", "commit", "Overlay", LIB_STEPS, False),
     ("overlay_try_commit", "nomt/src/lib.rs", "try_commit_nonblocking", "Overlay", LIB_STEPS, False),
     ("nomt_rollback", "nomt/src/lib.rs", "rollback", "Nomt", LIB_STEPS, True),
+    ("nomt_begin_session", "nomt/src/lib.rs", "begin_session", "Nomt", SESSION_STEPS, False),
     ("store_commit", "nomt/src/store/mod.rs", "commit", "Store", STORE_STEPS, False),
     ("sync", "nomt/src/store/sync.rs", "sync", "Sync", SYNC_STEPS, False),
     ("meta_write", "nomt/src/store/meta.rs", "write", "Meta", META_STEPS, False),
@@ -175,7 +186,7 @@ TARGETS = [
 
 
 ALL_NAMES = []
-for _steps in (LIB_STEPS, SYNC_STEPS, STORE_STEPS, META_STEPS, RECOVER_STEPS, WRITEOUT_STEPS, CTRL_STEPS, OPEN_STEPS):
+for _steps in (LIB_STEPS, SYNC_STEPS, STORE_STEPS, META_STEPS, RECOVER_STEPS, WRITEOUT_STEPS, CTRL_STEPS, OPEN_STEPS, SESSION_STEPS):
     for _n, _ in _steps:
         if _n not in ALL_NAMES:
             ALL_NAMES.append(_n)
